@@ -163,10 +163,13 @@ class GaussianMixture:
             means[k] = X[np.searchsorted(cumsum, r)]
 
         # Initialize responsibilities and compute initial parameters
-        responsibilities = np.zeros((n_samples, self.n_components))
+        # (distances are taken relative to the nearest centre of each point, so
+        # that a point far from every centre does not underflow to 0/0)
+        sq_distances = np.zeros((n_samples, self.n_components))
         for k in range(self.n_components):
-            distances = np.sum((X - means[k]) ** 2, axis=1)
-            responsibilities[:, k] = np.exp(-0.5 * distances)
+            sq_distances[:, k] = np.sum((X - means[k]) ** 2, axis=1)
+        sq_distances -= np.min(sq_distances, axis=1, keepdims=True)
+        responsibilities = np.exp(-0.5 * sq_distances)
         responsibilities /= np.sum(responsibilities, axis=1, keepdims=True)
 
         # Compute initial weights and covariances
@@ -175,27 +178,31 @@ class GaussianMixture:
         return weights, means, covariances
 
     def _e_step(self, X, weights, means, covariances):
-        """E-step: compute responsibilities."""
+        """E-step: compute responsibilities (in log space, so that a point whose
+        densities all underflow still gets a normalised row)."""
         from scipy.stats import multivariate_normal
+        from scipy.special import logsumexp
 
         n_samples = X.shape[0]
-        responsibilities = np.zeros((n_samples, self.n_components))
+        log_resp = np.zeros((n_samples, self.n_components))
+        with np.errstate(divide="ignore"):
+            log_weights = np.log(weights)
 
         for k in range(self.n_components):
             cov = self._get_covariance(covariances, k)
             try:
-                responsibilities[:, k] = weights[k] * multivariate_normal.pdf(
+                log_resp[:, k] = log_weights[k] + multivariate_normal.logpdf(
                     X, mean=means[k], cov=cov + np.eye(cov.shape[0]) * self.reg_covar
                 )
             except (np.linalg.LinAlgError, ValueError):
-                responsibilities[:, k] = weights[k] * multivariate_normal.pdf(
+                log_resp[:, k] = log_weights[k] + multivariate_normal.logpdf(
                     X, mean=means[k], cov=np.eye(len(means[k])) * self.reg_covar
                 )
 
         # Normalize
-        responsibilities /= np.sum(responsibilities, axis=1, keepdims=True) + 1e-10
+        log_resp -= logsumexp(log_resp, axis=1, keepdims=True)
 
-        return responsibilities
+        return np.exp(log_resp)
 
     def _m_step(self, X, responsibilities, sample_weight):
         """M-step: update parameters using weighted samples."""
